@@ -15,7 +15,7 @@ RULE = ("pipelines of the real element classes (Port, REDPort, Wire, TokenBucket
         "finish time, a per-source sink, inter-arrival recording; distinct = distinct scenario objects")
 
 SCHEDS = ["SP", "WFQ", "VC", "DRR", "RR", "WRR"]
-SMALL = [1, 1, 2, 3, 4, 6]
+SMALL = [0, 1, 1, 1, 2, 2, 3, 4, 6]
 BIG = [500, 1000, 1500, 1500, 3000, 4000]
 EIGHTHS = [(0, 1), (1, 8), (1, 4), (3, 8), (1, 2), (5, 8), (3, 4), (7, 8), (1, 1)]
 KIND = {"Gen": "src", "Inj": "src", "Port": "port", "REDPort": "red", "Wire": "wire", "TokenBucket": "tb",
@@ -236,6 +236,10 @@ class Net:
     def finish(self, origin):
         rng = self.rng
         nodes = self.nodes
+        if rng.random() < 0.35:             # the elements' debug flag (they only print more) is a parameter too
+            for nd in nodes:
+                if nd["cls"] != "Inj" and rng.random() < 0.5:
+                    nd["par"]["debug"] = 1
         order = list(range(1, len(nodes) + 1))
         if rng.random() < 0.6:
             rng.shuffle(order)
@@ -273,7 +277,7 @@ def random_pipeline(rng, shape=None, npk=None):
     nf = rng.choice([2, 2, 3, 3, 4])
     big = rng.random() < 0.3
     net = Net(rng, nf, big)
-    shape = shape or rng.choice(["chain", "chain", "chain", "fanin", "fanin", "fanout", "fanout", "split_join"])
+    shape = shape or rng.choice(["chain", "chain", "chain", "fanin", "fanin", "fanout", "fanout", "split_join", "burst"])
     npk = npk or rng.randint(3, 12)
     flows = list(range(nf))
     if shape == "chain":
@@ -307,6 +311,29 @@ def random_pipeline(rng, shape=None, npk=None):
             net.link(net.source(max(1, npk // nsrc), flows), entry)
         for _ in range(nb):
             net.tail(k, 2)
+    elif shape == "burst":
+        # many packets of one flow at one instant through elements that take no time, straight into the sink
+        n = rng.randint(8, 14)
+        t0 = rng.choice([0, 0, 2, 7])
+        f = rng.choice(flows)
+        if rng.random() < 0.5:
+            src = net.add("Gen", {"d0": t0, "gaps": [0] * n, "sizes": [rng.choice(net.sizes()) for _ in range(n + 1)],
+                                  "flow": f, "fin": -1, "floats": rng.choice([0, 1])})
+        else:
+            src = net.add("Inj", {"arr": [{"t": t0, "sz": rng.choice(net.sizes()), "f": f, "src": rng.choice([0, 1]), "pl": 0}
+                                          for _ in range(n)]})
+        last = src
+        for _ in range(rng.randint(0, 2)):
+            r = rng.random()
+            if r < 0.4:
+                k = net.add("Port", {"K": 0, "mode": 0, "qlimit": 0})
+            elif r < 0.8:
+                k = net.add("Wire", {"dl": [0], "loss": None, "us": [[1, 2]]})
+            else:
+                k = net.add("FlowDemux", {"nouts": 0, "dflt": 1})
+            net.link(last, k)
+            last = k
+        net.link(last, net.sink())
     else:   # a splitter whose branches meet again in one scheduler / port
         k = net.add("Splitter") if rng.random() < 0.6 else net.add("NSplitter", {"n": rng.randint(2, 3)})
         nb = 2 if net.nodes[k - 1]["cls"] == "Splitter" else net.nodes[k - 1]["par"]["n"]
@@ -450,7 +477,7 @@ def mc_all(ctx):
     module["gensink"] = "GenSinkMC"
     workers = 3 if ctx.quick else 4
     with ThreadPoolExecutor(max_workers=len(cfgs)) as ex:
-        futs = {n: ex.submit(tlc.run, module[n], c, tlc.SPEC + "/net", workers=workers, timeout=3000)
+        futs = {n: ex.submit(tlc.run, module[n], c, tlc.SPEC + "/net", workers=workers, timeout=3000, heap=("3g" if ctx.quick else "5g"))
                 for n, c in cfgs.items()}
         raw = {n: f.result() for n, f in futs.items()}
     out = {}
